@@ -226,6 +226,9 @@ func RunBatch(t *testing.T, ch Checker, tier string, batchSeed uint64, from, to 
 				br.Infra = append(br.Infra, fmt.Sprintf("seed %d: same schedule gave different outputs (%s vs %s)", seed, o.LogHash, o2.LogHash))
 			}
 		}
+		if AbandonedRuns > 0 && len(o.Violations) == 0 {
+			br.Infra = append(br.Infra, fmt.Sprintf("seed %d: a simulated run was abandoned by the real-time watchdog but the checker reported nothing", seed))
+		}
 		for _, v := range o.Violations {
 			sigSeen[v.Sig]++
 			if sigSeen[v.Sig] > 3 {
@@ -241,6 +244,9 @@ func RunBatch(t *testing.T, ch Checker, tier string, batchSeed uint64, from, to 
 				br.Infra = append(br.Infra, err.Error())
 			}
 			br.Violations = append(br.Violations, ViolationReport{Seed: seed, Index: i, Violation: v, CaseFile: name})
+		}
+		if AbandonedRuns > 0 {
+			break // goroutines of the abandoned bubble are still around: end this worker's batch
 		}
 	}
 	br.WallS = time.Since(start).Seconds()
